@@ -310,4 +310,13 @@ def _owner_alive(rundir):
 
 
 if __name__ == "__main__":
-    sys.exit(main())
+    try:
+        code = main()
+    except SystemExit:
+        raise
+    except BaseException as e:   # a harness failure is never a verdict about the repository
+        import traceback
+        traceback.print_exc()
+        print(f"INCONCLUSIVE property={sys.argv[1] if len(sys.argv) > 1 else '?'} reason=orchestrator error: {type(e).__name__}: {e}")
+        code = 2
+    sys.exit(code)
